@@ -53,3 +53,16 @@ func VerifC06Ring(r *Route) []int {
 
 // VerifC06RRPick calls rrPicker once and returns the index in r.Targets of the target it handed out.
 func VerifC06RRPick(r *Route) int { return VerifC06TargetIndex(r, rrPicker(r)) }
+
+// VerifC06CacheCountLocked takes the cache's mutex, as a lookup in its slow path does, and returns what it sees
+// under it: the number of entries of the map, the fill count and the length of the ring. It may be called while
+// lookups are in flight (it only reads).
+func VerifC06CacheCountLocked(c *GlobCache) (entries, n, size int) {
+	c.mu.Lock()
+	defer c.mu.Unlock()
+	c.m.Range(func(_, _ interface{}) bool {
+		entries++
+		return true
+	})
+	return entries, c.n, len(c.l)
+}
